@@ -1,7 +1,7 @@
 from common import COMMON_TRUST
 
 PROP = {
-    "generated": ["FormConsts"],
+    "generated": ["FormConsts", "FormImpls"],
     "lean_modules": ["SwimVerif.Model.FormSchema", "SwimVerif.Model.FormWF", "SwimVerif.Model.FormIO",
                      "SwimVerif.Model.FormMon", "SwimVerif.Proofs.FormSchema", "SwimVerif.Proofs.FormTypes", "SwimVerif.Proofs.FormReset",
                      "SwimVerif.Generated.FormConsts"],
@@ -22,7 +22,7 @@ PROP = {
                   "tags / non-records are rejected. Each tyWF condition the derive macro does not enforce is shown "
                   "necessary by a witness the macro accepts (model and real code). The model (layout + recognisers on "
                   "bridge events, incl. tuple structs, newtypes, enums) is tied to the real derive output by "
-                  "differential execution over a battery of 354 types (71 base types, each also as Vec / Option / struct field / HashMap value, so that reset-and-reused recognisers are exercised) on written and mutated values; the two "
+                  "differential execution over a battery of about 500 types (100 base types incl. every hand-written Form impl of swimos_form for std/library types - enumerated from the source, coverage enforced by the extractor - and maps with compound keys, each also as Vec / Option / struct field / HashMap value, so that reset-and-reused recognisers are exercised) on written and mutated values; the two "
                   "Recon reading paths, the MessagePack round trip and 'one decoder instance = fresh reads' are decided on "
                   "the implementation by a monitor.",
     "level_note": "The proc-macro expansion is exercised (battery), not modelled; a newtype used as #[form(body)] is in the "
